@@ -78,7 +78,9 @@ theorem isTagWordsAux_split : ∀ (s cur : List Char), (∀ c ∈ cur, isTagChar
         intro d hd
         rcases List.mem_append.mp hd with hd | hd
         · exact hcur d hd
-        · simp at hd; subst hd; exact h.1) (by simpa using h.2)
+        · simp at hd; subst hd; exact h.1) (by
+          have hne : (cur ++ [c]).isEmpty = false := by simp
+          rw [hne]; exact h.2)
       exact ⟨ts, hts, hwfs, by simpa using he⟩
 
 theorem tagsLike_split {s : List Char} (h : tagsLike s = true) :
@@ -158,13 +160,13 @@ theorem metadataValue_colon (z r2 : List Char) (hz : ∀ c ∈ z, isEol c = fals
     have hl := tillLineEnding_line (a := z') (r := r2) (fun c hc => hz c (by simp [hc])) hr2
     have hlit : literal [':', ':'] (':' :: (':' :: z' ++ r2)) = .ok [':', ':'] (z' ++ r2) := by
       simpa using literal_append [':', ':'] (z' ++ r2)
-    refine ⟨_, _, ?_⟩
+    refine ⟨.expr (String.ofList (trim z')), r2, ?_⟩
     unfold metadataValue
     apply alt2_ok
     simp only [map_apply, preceded_apply, hlit, Res.andThen_ok, hl, Res.map_ok]
   · have hl := tillLineEnding_line (a := z) (r := r2) hz hr2
     have hlit : ∃ q, literal [':', ':'] (':' :: (z ++ r2)) = .bt q := by
-      refine ⟨_, ?_⟩
+      refine ⟨':' :: (z ++ r2), ?_⟩
       simp only [literal]
       rw [if_neg]
       intro hp
@@ -179,7 +181,7 @@ theorem metadataValue_colon (z r2 : List Char) (hz : ∀ c ∈ z, isEol c = fals
         simp only [List.cons_append, List.cons.injEq] at ht
         exact hh ⟨z', by rw [ht.1]⟩
     obtain ⟨q, hq⟩ := hlit
-    refine ⟨_, _, ?_⟩
+    refine ⟨.text (String.ofList (trim z)), r2, ?_⟩
     unfold metadataValue
     rw [alt2_bt (z := q) (by simp only [map_apply, preceded_apply, hq, Res.andThen_bt, Res.map_bt])]
     simp only [map_apply, preceded_apply, char_cons_self, Res.andThen_ok, hl, Res.map_ok]
@@ -212,7 +214,7 @@ theorem metadataKv_of_kvLike (s ws r2 : List Char) (hk : kvLike s = true) (hl : 
         simp only [List.cons_append, List.cons.injEq] at e
         have := hst c' t rfl
         rw [e.1] at this
-        simpa [isTagChar] using this
+        simpa only [isTagChar, Bool.not_eq_false'] using this
     have htk : tagKey (s ++ (ws ++ r2)) = .ok k (s' ++ (ws ++ r2)) := by
       rw [hs, List.append_assoc]
       exact takeTill1_append hkne (fun c hc => by simpa [isTagChar] using hkall c hc) hs'ne
@@ -306,28 +308,36 @@ theorem lineMetadata_step {j r : List Char} {m : Metadata} (hj : TextOK j) (h : 
     wfMetadata m = true ∧ TextOK r :=
   ⟨lineMetadata_image hj h, hj.suffix (safe_lineMetadata.suffix h)⟩
 
+theorem blockMetadata_cons (c : Char) (t : List Char) : blockMetadata (c :: t) =
+    if c = ';' then separated1 lineMetadata space1 (c :: t)
+    else preceded lineEnding (repeat0 (preceded space1 lineMetadata)) (c :: t) := by
+  by_cases hc : c = ';'
+  · subst hc; rfl
+  · rw [if_neg hc]
+    unfold blockMetadata dispatchOpt
+    simp only
+    refine congrFun ?_ (c :: t)
+    split
+    · rename_i heq; simp at heq; exact absurd heq hc
+    · rename_i heq; simp at heq
+    · rfl
+
 /-- **image of `block_metadata`** -/
 theorem blockMetadata_image {i r : List Char} {ms : List Metadata} (hi : TextOK i) (h : blockMetadata i = .ok ms r) :
     ∀ m ∈ ms, wfMetadata m = true := by
-  unfold blockMetadata at h
   cases i with
   | nil =>
-    simp only [dispatchOpt, pure_ok_iff] at h
+    simp only [blockMetadata, dispatchOpt, pure_ok_iff] at h
     rw [h.1]; simp
   | cons c t =>
-    simp only [dispatchOpt] at h
+    rw [blockMetadata_cons] at h
     by_cases hc : c = ';'
-    · subst hc
-      simp only at h
+    · rw [if_pos hc] at h
       exact (separated1_forall (Q := fun m => wfMetadata m = true) (S := TextOK)
         (fun j a r hj hp => lineMetadata_step hj hp)
         (fun j b r hj hs => hj.suffix (safe_space1 (Nat.le_refl 1) |>.suffix hs)) hi h).1
-    · have h' : preceded lineEnding (repeat0 (preceded space1 lineMetadata)) (c :: t) = .ok ms r := by
-        split at h
-        · rename_i heq; simp at heq; exact absurd heq hc
-        · rename_i heq; simp at heq
-        · exact h
-      obtain ⟨_, r1, hle, hrep⟩ := preceded_ok_iff.1 h'
+    · rw [if_neg hc] at h
+      obtain ⟨_, r1, hle, hrep⟩ := preceded_ok_iff.1 h
       have hr1 : TextOK r1 := hi.suffix (safe_lineEnding (Nat.le_refl 1) |>.suffix hle)
       obtain ⟨hsteps, _⟩ := repeat0_ok hrep
       exact (Steps.forall (Q := fun m => wfMetadata m = true) (S := TextOK)
